@@ -476,10 +476,17 @@ impl Transform {
 
                 loop {
                     let in_ellipsis = template_iter.peek() == Some(&&self.ellipsis);
+                    let before = env.positions();
                     match self.expand(template, pattern, env) {
                         Some(cell) => {
                             v.push(cell);
                             if in_ellipsis {
+                                // A repetition ends when one of its variables runs out of matches.
+                                // One that expanded without consuming any (a variable used under
+                                // more ellipses than it was bound under) would never end.
+                                if env.positions() == before {
+                                    return None;
+                                }
                                 continue;
                             }
                         }
@@ -539,6 +546,11 @@ impl<'a> PatternEnvironment<'a> {
 
     fn add_binding(&mut self, pattern: &'a Cell, expr: &'a Cell) {
         self.bindings.push((pattern, expr));
+    }
+
+    /// Where each ellipsis-bound variable stands in its sequence of matches
+    fn positions(&self) -> Vec<Option<usize>> {
+        self.iters.iter().map(|it| it.1).collect()
     }
 
     fn get_binding(&mut self, symbol: &Cell) -> Option<&'a Cell> {
